@@ -231,3 +231,231 @@ vk_harness!(c16_op_blanks_eq_gt, {
 vk_harness!(c16_op_blanks_eq_eq, {
     two_character_operators(true, 2, 2);
 });
+
+// ---------------------------------------------------------------------------------------------------------------
+// Scanners on a small symbolic character queue
+
+/// The lexically significant alphabet for numeric literals, plus a letter, a blank and a comma as followers.
+fn alpha(k: u8) -> char {
+    match k {
+        0 => '0',
+        1 => '1',
+        2 => '7',
+        3 => '9',
+        4 => '.',
+        5 => 'E',
+        6 => 'e',
+        7 => 'D',
+        8 => 'd',
+        9 => '+',
+        10 => '-',
+        11 => '!',
+        12 => '#',
+        13 => '%',
+        14 => 'A',
+        15 => ' ',
+        _ => ',',
+    }
+}
+const NALPHA: u8 = 17;
+
+/// A lexer positioned on `n` symbolic characters (n concrete), the first one a digit or '.'.
+fn lexer_on(n: usize, out: &mut [char; 6]) -> BasicLexer {
+    let mut lx = BasicLexer { chars: VecDeque::default(), pending: VecDeque::default(), remark: false };
+    let mut i = 0;
+    while i < n {
+        let k = vk::any_below(NALPHA);
+        if i == 0 {
+            vk::assume(k <= 4);
+        }
+        let c = alpha(k);
+        out[i] = c;
+        lx.chars.push_back(c);
+        i += 1;
+    }
+    lx
+}
+
+fn number_returns(n: usize) {
+    let mut text = [' '; 6];
+    let mut lx = lexer_on(n, &mut text);
+    let before = lx.chars.len();
+    // every loop iteration pops one character and pushes back at most one: 3n+3 pops are more than any terminating scan needs
+    crate::vshim::collections::set_fuel(3 * n + 3);
+    let tok = lx.number();
+    vk_check!(matches!(tok, Some(Token::Literal(_))), "C03: the numeric scanner always returns a literal");
+    vk_check!(lx.chars.len() < before, "C03: the numeric scanner consumes at least one character (the lexer makes progress)");
+    vk_cover!(true, "reach: number returned");
+    core::mem::forget(lx);
+    core::mem::forget(tok);
+}
+
+//@ prop: C03
+//@ tier: quick
+//@ unwind: 20
+//@ kind: termination
+//@ encodes: BasicLexer::number (loop with push-back)
+//@ bounds: every string of 3 characters over 0 1 7 9 . E e D d + - ! # % A blank comma that starts with a digit or '.'; termination is decided by a progress budget of 3n+3 character pops (a terminating scan needs at most 2n) plus the unwinding assertion
+vk_harness!(c03_number_scanner_returns_3, {
+    number_returns(3);
+});
+
+//@ prop: C03
+//@ tier: quick
+//@ unwind: 20
+//@ kind: termination
+//@ encodes: BasicLexer::number (loop with push-back)
+//@ bounds: every string of 4 characters over the numeric alphabet that starts with a digit or '.'; progress budget 3n+3 pops plus the unwinding assertion
+vk_harness!(c03_number_scanner_returns_4, {
+    number_returns(4);
+});
+
+fn lit_parts(t: &Option<Token>) -> (u8, String) {
+    match t {
+        Some(Token::Literal(Literal::Single(s))) => (1, s.clone()),
+        Some(Token::Literal(Literal::Double(s))) => (2, s.clone()),
+        Some(Token::Literal(Literal::Integer(s))) => (0, s.clone()),
+        _ => (9, String::new()),
+    }
+}
+fn lexer_on_text(text: &str, follower: Option<char>) -> BasicLexer {
+    let mut lx = BasicLexer { chars: VecDeque::default(), pending: VecDeque::default(), remark: false };
+    for c in text.chars() {
+        lx.chars.push_back(c);
+    }
+    if let Some(f) = follower {
+        lx.chars.push_back(f);
+    }
+    lx
+}
+
+fn number_relex_fixpoint(n: usize) {
+    let mut text = [' '; 6];
+    let mut lx = lexer_on(n, &mut text);
+    let tok = lx.number();
+    let (kind, s) = lit_parts(&tok);
+    vk_check!(kind != 9, "C05: the numeric scanner returns a numeric literal");
+    // LIST prints the literal's text followed by the rest of the line; it puts a blank between the literal and a following word.
+    // Entering that text again must give the same literal (type included) and leave the same rest.
+    let mut lx2 = BasicLexer { chars: VecDeque::default(), pending: VecDeque::default(), remark: false };
+    let rest_len = lx.chars.len();
+    let k = n - rest_len; // characters consumed by the literal
+    // built back to front with push_front (a plain push in the deque model): rest, optional blank, literal text
+    let mut j = n;
+    while j > 0 {
+        j -= 1;
+        if j >= k {
+            lx2.chars.push_front(text[j]);
+        }
+    }
+    let inserted_blank = k < n && text[if k < 6 { k } else { 5 }].is_ascii_alphabetic();
+    if inserted_blank {
+        lx2.chars.push_front(' ');
+    }
+    let sb = s.as_bytes();
+    let mut m = 8;
+    while m > 0 {
+        m -= 1;
+        if m < sb.len() {
+            lx2.chars.push_front(sb[m] as char);
+        }
+    }
+    let tok2 = lx2.number();
+    let (kind2, s2) = lit_parts(&tok2);
+    vk_check!(s2 == s, "C05: the listed text of a numeric literal re-lexes to the same text");
+    vk_check!(kind2 == kind, "C05: the listed text of a numeric literal re-lexes to a literal of the same type");
+    vk_check!(lx2.chars.len() == rest_len + if inserted_blank { 1 } else { 0 }, "C05: re-lexing the listed literal leaves the same rest of the line");
+    vk_cover!(kind == 0, "reach: integer literal");
+    vk_cover!(kind == 2, "reach: double literal");
+    vk_cover!(inserted_blank, "reach: literal followed by a word");
+    core::mem::forget(lx);
+    core::mem::forget(lx2);
+}
+
+//@ prop: C05
+//@ tier: quick
+//@ unwind: 20
+//@ encodes: BasicLexer::number (twice: on the input and on the literal's listed text)
+//@ bounds: every string of 3 characters over 0 1 7 9 . E e D d + - ! # % A blank comma starting with a digit or '.'; the re-entered text is the literal followed by the same rest (with the blank LIST inserts before a word)
+vk_harness!(c05_number_relex_fixpoint_3, {
+    number_relex_fixpoint(3);
+});
+
+//@ prop: C05
+//@ tier: quick
+//@ unwind: 20
+//@ encodes: BasicLexer::number (twice: on the input and on the literal's listed text)
+//@ bounds: every string of 4 characters over the numeric alphabet starting with a digit or '.'; the re-entered text is the literal followed by the same rest
+vk_harness!(c05_number_relex_fixpoint_4, {
+    number_relex_fixpoint(4);
+});
+
+/// The manual's typing rules (ch.1), applied to the literal's own text; None where two rules of the manual overlap.
+fn manual_type(s: &str) -> Option<u8> {
+    let b = s.as_bytes();
+    let mut digits = 0;
+    let (mut has_e, mut has_d, mut has_dot) = (false, false, false);
+    let mut value: u32 = 0;
+    let mut i = 0;
+    while i < b.len() {
+        let c = b[i];
+        if c == b'E' {
+            has_e = true;
+        } else if c == b'D' {
+            has_d = true;
+        } else if c == b'.' {
+            has_dot = true;
+        } else if c >= b'0' && c <= b'9' && !has_e && !has_d {
+            digits += 1;
+            if value < 100000 {
+                value = value * 10 + (c - b'0') as u32;
+            }
+        }
+        i += 1;
+    }
+    match b.last() {
+        Some(b'!') => return Some(1),
+        Some(b'#') => return Some(2),
+        Some(b'%') => return Some(0),
+        _ => {}
+    }
+    if has_d && !has_e {
+        return Some(2);
+    }
+    if has_e && !has_d {
+        return if digits > 7 { None } else { Some(1) };
+    }
+    if has_e || has_d {
+        return None;
+    }
+    if digits > 7 {
+        return Some(2);
+    }
+    if has_dot {
+        return Some(1);
+    }
+    Some(if value <= 32767 { 0 } else { 1 })
+}
+
+fn number_typing(n: usize) {
+    let mut text = [' '; 6];
+    let mut lx = lexer_on(n, &mut text);
+    let tok = lx.number();
+    let (kind, s) = lit_parts(&tok);
+    if let Some(want) = manual_type(s.as_str()) {
+        vk_check!(kind == want, "C02: an undecorated literal is typed by the manual's rules (E: Single, D: Double, decimal: Single, > 7 digits: Double, fits Integer: Integer, else Single)");
+    }
+    vk_cover!(kind == 0, "reach: integer literal");
+    vk_cover!(kind == 1, "reach: single literal");
+    vk_cover!(kind == 2, "reach: double literal");
+    core::mem::forget(lx);
+}
+
+//@ prop: C02
+//@ tier: quick
+//@ unwind: 20
+//@ encodes: BasicLexer::number (literal classification)
+//@ bounds: every string of 4 characters over 0 1 7 9 . E e D d + - ! # % A blank comma starting with a digit or '.'
+vk_harness!(c02_literal_typing_4, {
+    number_typing(4);
+});
